@@ -339,7 +339,9 @@ func (lw *wsconcWorld) exec(f []string) {
 				fr.SetFIN()
 			}
 			fr.SetOpcode(websocket.Opcode(atoi(f[3])))
-			fr.SetPayload(wsconcPat(id, atoi(f[4])))
+			if n := atoi(f[4]); n > 0 {
+				fr.SetPayload(wsconcPat(id, n))
+			} // an empty frame is an acquired frame with its flags set and no payload call (the pool may hand out a used frame)
 			lw.ws.AsyncWriteFrame(fr, plain)
 		case "flush":
 			lw.ws.AsyncFlush(plain)
